@@ -213,11 +213,19 @@ func runProperty(g *Gen, prop, tier, out string, cfg SolverCfg, t0 time.Time) in
 			seen[ob.FullName()] = true
 			solverMs += ob.Ms
 			if ob.Cover {
+				if ob.Info {
+					continue
+				}
 				covers++
 				if ob.Result == "sat" {
 					coversOK++
 				} else if ob.Result == "unsat" {
-					viols = append(viols, viol{ob, r, "the preconditions of the unit are contradictory: every obligation would pass vacuously"})
+					if ob.CoverPre != nil && ob.CoverPre.Result != "sat" {
+						// the call site itself is dead code under the preconditions: not a vacuity problem
+						coversOK++
+						continue
+					}
+					viols = append(viols, viol{ob, r, "vacuity: the assumptions made up to this point are contradictory, obligations after it would pass vacuously"})
 				}
 				continue
 			}
